@@ -201,7 +201,7 @@ fn props(s: &TlSpec) -> (bool, bool) {
 }
 
 pub fn run(run: Run) -> ! {
-    let maxlen = if run.is_thorough() { 4 } else { 3 };
+    let maxlen = if run.is_thorough() { 5 } else { 4 };
     let pool = pool();
     let np = pool.len();
     let meta_only = np - 1;
